@@ -61,10 +61,27 @@ def paint_matrix(fmt, g):
     raise UnsupportedPaint("format %d is not a transform" % fmt)
 
 
+def normalized_location(font, location):
+    """User-space location -> normalised, avar-mapped, F2DOT14-rounded coordinates."""
+    from fontTools.varLib.models import normalizeLocation, piecewiseLinearMap
+
+    axes = {a.axisTag: (a.minValue, a.defaultValue, a.maxValue) for a in font["fvar"].axes}
+    loc = normalizeLocation(location, axes)
+    loc = {k: round(v * 16384) / 16384 for k, v in loc.items()}
+    if "avar" in font:
+        for tag, seg in font["avar"].segments.items():
+            if tag in loc:
+                loc[tag] = round(piecewiseLinearMap(loc[tag], seg) * 16384) / 16384
+    return loc
+
+
 class ColrReader:
     def __init__(self, font, location=None, palette=0):
         self.font = font
-        self.gs = font.getGlyphSet(location=location) if location else font.getGlyphSet()
+        # Normalised coordinates are F2DOT14 in every consumer (OpenType "Coordinate scales and normalization"): without
+        # the rounding a master whose position is not representable sits a hair off its region's peak.
+        self.nloc = normalized_location(font, location) if location else None
+        self.gs = font.getGlyphSet(location=self.nloc, normalized=True) if location else font.getGlyphSet()
         self.colr = font["COLR"]
         self.pal = font["CPAL"].palettes[palette] if "CPAL" in font else []
         self.location = location
@@ -85,18 +102,9 @@ class ColrReader:
                 for r in t.BaseGlyphRecordArray.BaseGlyphRecord:
                     self.v0[r.BaseGlyph] = [(l.LayerGlyph, l.PaletteIndex) for l in lr[r.FirstLayerIndex : r.FirstLayerIndex + r.NumLayers]]
             if location and getattr(t, "VarStore", None) is not None and t.VarStore is not None:
-                from fontTools.varLib.models import normalizeLocation
                 from fontTools.varLib.varStore import VarStoreInstancer
 
-                axes = {a.axisTag: (a.minValue, a.defaultValue, a.maxValue) for a in font["fvar"].axes}
-                loc = normalizeLocation(location, axes)
-                if "avar" in font:
-                    from fontTools.varLib.models import piecewiseLinearMap
-
-                    for tag, seg in font["avar"].segments.items():
-                        if tag in loc:
-                            loc[tag] = piecewiseLinearMap(loc[tag], seg)
-                self._var = (VarStoreInstancer(t.VarStore, font["fvar"].axes, loc), t.VarIndexMap)
+                self._var = (VarStoreInstancer(t.VarStore, font["fvar"].axes, self.nloc), t.VarIndexMap)
         else:
             self.v0 = {g: [(l.name, l.colorID) for l in ls] for g, ls in self.colr.ColorLayers.items()}
             self.base = {}
